@@ -51,11 +51,16 @@ Concat(s) == IF s = << >> THEN "" ELSE s[1] \o Concat(Tail(s))
 CharStrings(firstc, maxlen) ==
   LET A == {CharAlpha[i] : i \in 1..Len(CharAlpha)}
   IN UNION {{firstc \o Concat(s) : s \in [1..n -> A]} : n \in 0..(maxlen - 1)}
+LrefCharAlpha == <<"a", "b", "~", "/", ".", "[", "]", "=", ":", " ", "*", "1", "-", "`">>
+LrefCharStrings(firstc, maxlen) ==
+  LET A == {LrefCharAlpha[i] : i \in 1..Len(LrefCharAlpha)}
+  IN UNION {{firstc \o Concat(s) : s \in [1..n -> A]} : n \in 0..(maxlen - 1)}
+VecLC(cs) == [kind |-> "chars", lang |-> "leafref", ts |-> <<cs>>, v |-> LeafrefCharVerdict(cs), why |-> ""]
 VecC(cs) == LET r == CharVerdict(cs) IN [kind |-> "chars", lang |-> "expr", ts |-> <<cs>>, v |-> r.v, why |-> r.why]
 VARIABLES kind, first, chunk, done
 Jobs == {<<"full", i, 0>> : i \in 1..Len(FullAlpha)} \cup {<<"core", i, 0>> : i \in 1..Len(CoreAlpha)} \cup {<<"tiny", i, 0>> : i \in 1..Len(TinyAlpha)}
         \cup {<<"mutant", f, c>> : f \in MutFams, c \in 1..NChunks} \cup {<<"lref", i, 0>> : i \in 1..Len(LrefAlpha)} \cup {<<"lref", 0, 0>>}
-        \cup {<<"chars", i, 0>> : i \in 1..Len(CharAlpha)}
+        \cup {<<"chars", i, 0>> : i \in 1..Len(CharAlpha)} \cup {<<"lchars", i, 0>> : i \in 1..Len(LrefCharAlpha)}
 GInit == \E j \in Jobs : kind = j[1] /\ first = j[2] /\ chunk = j[3] /\ kind \in Kinds /\ done = FALSE
 File == "gvec_" \o kind \o "_" \o ToString(first) \o "_" \o ToString(chunk) \o ".ndjson"
 \* the ASTs of a family that fall into this chunk (every MutEvery-th AST of the family is used)
@@ -68,6 +73,7 @@ GNext == /\ ~done /\ done' = TRUE /\ UNCHANGED <<kind, first, chunk>>
               [] kind = "mutant" -> ndJsonSerialize(File, SetToSeq({VecE(kind, m) : m \in {x \in UNION {Mutants(Toks(e, "min")) \cup {Toks(e, "min")} : e \in ChunkAsts} : QuoteSafe(x)}}))
                                     \* sanity of the spec itself: every rendered AST is a sentence of the language
                                     /\ Assert(\A e \in ChunkAsts : Verdict(Toks(e, "min")) # "reject" /\ Verdict(Toks(e, "full")) # "reject", "rendered AST rejected by the grammar spec")
+              [] kind = "lchars" -> ndJsonSerialize(File, SetToSeq({VecLC(cs) : cs \in LrefCharStrings(LrefCharAlpha[first], MaxChars + 1)}))
               [] kind = "chars" -> ndJsonSerialize(File, SetToSeq({VecC(cs) : cs \in CharStrings(CharAlpha[first], MaxChars)}))
               [] kind = "lref" -> IF first = 0
                                   THEN ndJsonSerialize(File, SetToSeq({VecL(kind, m) : m \in UNION {Mutants(p) \cup {p} : p \in LrefPool}}))
